@@ -14,7 +14,7 @@ code.append("struct vd_member { const char *name; size_t off, size; int depth; c
 table = []
 for name, hdr in STRUCTS.items():
     text = strip_comments(open(os.path.join(src, hdr)).read())
-    m = re.search(r"typedef\s+struct\s*\{([^}]*)\}\s*%s\s*;" % re.escape(name), text)
+    m = re.search(r"typedef\s+struct\s*(?:\w+\s*)?\{([^}]*)\}\s*%s\s*;" % re.escape(name), text)   # an optional struct tag is the same type
     if not m: raise SystemExit("cannot find typedef struct %s in %s" % (name, hdr))
     members = []
     for decl in m.group(1).split(";"):
